@@ -15,8 +15,8 @@ use refmodel::picture::{Ty, ALL_TYPES};
 use sqldatetime::{Date, DateTime, Formatter, IntervalDT, IntervalYM, OracleDate, Time, Timestamp};
 use std::fmt::Write;
 
-pub const INPUT_ALPHABET: [&[u8]; 25] = [
-    b"0", b"1", b"2", b"9", b"+", b"-", b" ", b"\t", b":", b".", b",", b"/", b"\\", b";", b"A", b"a", b"M", b"p", b"T", b"J", b"u", b"n", b"x", "\u{e9}".as_bytes(), b"\x7f",
+pub const INPUT_ALPHABET: [&[u8]; 26] = [
+    b"0", b"1", b"2", b"9", b"+", b"-", b" ", b"\t", b":", b".", b",", b"/", b"\\", b";", b"A", b"a", b"M", b"p", b"T", b"J", b"u", b"n", b"x", "\u{e9}".as_bytes(), b"\x7f", b"\0",
 ];
 
 pub const TOKEN_KINDS: [&str; 34] = [
@@ -229,7 +229,7 @@ pub fn run(ctx: &mut Ctx) {
     let n1 = strings::count_upto(ka, l1);
     let n2 = strings::count_upto(ka, l2);
     let nt = TOKEN_KINDS.len() as u64;
-    ctx.bound("input_strings", json!(format!("every input of length 0..={l1} over a 25-symbol input alphabet under each of {nt} single-token pictures, and of length 0..={l2} under each of {} ordered token pairs, for all six types", nt * nt)));
+    ctx.bound("input_strings", json!(format!("every input of length 0..={l1} over a 26-symbol input alphabet under each of {nt} single-token pictures, and of length 0..={l2} under each of {} ordered token pairs, for all six types", nt * nt)));
     let r = ctx.sweep(&format!("{pre}inputs_x_single_tokens"), "every short input string x every single-token picture x 6 types", nt * n1, n1.min(1 << 13), |range, acc| {
         let mut sym = Vec::new();
         let mut buf = Vec::new();
@@ -343,6 +343,40 @@ pub fn run(ctx: &mut Ctx) {
     });
     ctx.require(&r, &["written", "sink_error"]);
 
+    // the Display value with width / precision / fill / alignment specs
+    let r = ctx.sweep_each(&format!("{pre}display_format_specs"), "value.format(picture)? written with format specs {:.0} {:.3} {:.40} {:>40} {:<5} {:^31.7} {:*>12.2} for every probe value x a few pictures", np * 4, 8, |idx, acc| {
+        let tv = &pr_r[(idx % np) as usize];
+        let pic = ["YYYY-MM-DD", "HH24:MI:SS.FF", "YYYY-MM", "DD HH24:MI"][(idx / np) as usize];
+        acc.states += 1;
+        acc.t(7);
+        let r = guard(|| {
+            let mut sink = String::new();
+            macro_rules! go { ($v:expr) => {{ match $v.format(pic) { Ok(d) => { let _ = write!(sink, "{:.0}|{:.3}|{:.40}|{:>40}|{:<5}|{:^31.7}|{:*>12.2}", d, d, d, d, d, d, d); true } Err(_) => false } }}; }
+            match tv.ty {
+                Ty::Date => go!(Date::try_from_days(tv.raw as i32).unwrap()),
+                Ty::Time => go!(Time::try_from_usecs(tv.raw).unwrap()),
+                Ty::Timestamp => go!(Timestamp::try_from_usecs(tv.raw).unwrap()),
+                Ty::IntervalYM => go!(IntervalYM::try_from_months(tv.raw as i32).unwrap()),
+                Ty::IntervalDT => go!(IntervalDT::try_from_usecs(tv.raw).unwrap()),
+                Ty::OracleDate => go!(OracleDate::try_from_usecs(tv.raw).unwrap()),
+            }
+        });
+        match r { Ok(_) => acc.cls("returned"), Err(()) => acc.fail(&format!("C03:{p}:display-format-spec:panic"), idx, || (format!("write!(sink, \"{{:.40}} ...\", {}.format({pic:?})?)", tv.show()), "Ok or Err".into(), "panic".into(), String::new())) }
+    });
+    ctx.require(&r, &["returned"]);
+
+    // over-long pictures whose 37th token is followed by blanks and a multi-byte character at every offset
+    let r = ctx.sweep_each(&format!("{pre}long_pictures_with_multibyte_tail"), "37..=41 hyphens + 0..=80 blanks + a 2-, 3- or 4-byte character: every byte alignment of the character against the first 130 bytes", 5 * 81 * 3, 8, |idx, acc| {
+        let h = 37 + (idx / (81 * 3)) as usize;
+        let b = ((idx / 3) % 81) as usize;
+        let ch = ["\u{e9}", "\u{4e2d}", "\u{1f600}"][(idx % 3) as usize];
+        let pic = format!("{}{}{}x", "-".repeat(h), " ".repeat(b), ch);
+        acc.states += 1;
+        exercise_picture(acc, idx, &pic, pr_r, &[""], p);
+        exercise_picture(acc, idx, &format!("{}{}{}", "MI:".repeat(h / 2), " ".repeat(b), ch), pr_r, &[""], p);
+    });
+    ctx.require(&r, &["picture_rejected"]);
+
     // 5. realistic pictures x every field replaced by boundary numbers
     let nums: [&str; 16] = ["0", "00", "000", "1", "12", "13", "31", "32", "59", "60", "99", "365", "366", "367", "999", "9999"];
     let shapes: Vec<(&str, Vec<&str>)> = vec![
@@ -409,8 +443,26 @@ pub fn run(ctx: &mut Ctx) {
             }
         }
         if len <= 16 {
-            for fill in [0x00u8, 0x7f, 0xff, 0x80] {
+            for fill in [0x00u8, 0x7f, 0xff, 0x80, 0x01, 0x78] {
                 let bytes = vec![fill; len];
+                // the same bytes handed over as a byte string by a self-describing format
+                acc.t(1);
+                let rb = guard(|| {
+                    use serde::de::value::{BytesDeserializer, Error as VE};
+                    use serde::Deserialize;
+                    let d = BytesDeserializer::<VE>::new(&bytes);
+                    match ty {
+                        Ty::Date => Date::deserialize(d).is_ok(),
+                        Ty::Time => Time::deserialize(d).is_ok(),
+                        Ty::Timestamp => Timestamp::deserialize(d).is_ok(),
+                        Ty::IntervalYM => IntervalYM::deserialize(d).is_ok(),
+                        Ty::IntervalDT => IntervalDT::deserialize(d).is_ok(),
+                        Ty::OracleDate => OracleDate::deserialize(d).is_ok(),
+                    }
+                });
+                if rb.is_err() {
+                    acc.fail(&format!("C03:{p}:bytes-decode:panic"), idx, || (format!("{ty:?}::deserialize(BytesDeserializer of {len} bytes of {fill:#04x})"), "a value or an error".into(), "panic".into(), String::new()));
+                }
                 acc.t(1);
                 let r = guard(|| match ty {
                     Ty::Date => bincode::deserialize::<Date>(&bytes).is_ok(),
